@@ -128,6 +128,12 @@ def mock_cases(rng, tier, strict):
             cases.append("serde_mock_de %s 0 %s %s" % (v, rng.choice(["bytes", "bytebuf"]), hx(rng.bytes(L))))
         for pfx in (b"T0", b"t1", b"T2", b"1T", b"  "):
             cases.append("serde_mock_de %s 1 str %s" % (v, hx(pfx + good[2:])))
+        # a well-formed string with something in front of / behind it (doubled prefix, white space, NUL, BOM ..): a visitor that
+        # strips or trims before handing the text to the parser would accept these
+        for d in suites.affixed(good):
+            kinds = ["str", "string", "bytes", "bytebuf"] if _is_utf8(d) else ["bytes", "bytebuf"]
+            for kind in kinds[::(2 if tier == "quick" else 1)]:
+                cases.append("serde_mock_de %s 1 %s %s" % (v, kind, hx(d)))
         for bs in nonascii_strings(rng, v):
             cases.append("serde_mock_de %s 1 %s %s" % (v, rng.choice(["str", "string"]), hx(bs)))
         for kind in ("u8", "u64", "i64", "f64", "bool", "unit", "none", "char"):
@@ -174,6 +180,9 @@ def format_cases(rng, tier, strict):
         good = suites.ref_format(v, suites.plausible_bin(rng, v), True)
         docs = ['"%s"' % good, '"%s"' % good[2:], '"%s"' % good.lower().replace("t1", "T1"), '"%s"' % good[:-1], '"T0%s"' % good[2:],
                 '"%sG"' % good[:-1], "1", "null", "[1]", '{"a":1}', '""', '"\\u0054\\u0031%s"' % good[2:], "true", '"Té%s"' % good[3:]]
+        for a in suites.affixed(good.encode()):
+            if _is_utf8(a) and all(32 <= c < 127 for c in a):
+                docs.append('"%s"' % a.decode())
         for d in docs:
             cases.append("serde_de %s json %s" % (v, hx(d.encode())))
         for L in (0, 1, size - 1, size, size + 1, 2 * size):
